@@ -210,6 +210,9 @@ def call_other(I, f, args, kwargs):
                 r = m(I, args[0], list(args[1:]), kwargs)
                 if r is not NotImplemented:
                     return r
+            if isinstance(args[0], tp) and isinstance(args[0], (list, dict, set, tuple)) and not isinstance(f, types.WrapperDescriptorType):
+                # dict.keys(self) etc.: the same builtin method, bound
+                return call_other(I, f.__get__(args[0]), list(args[1:]), kwargs)
         if all_clean(args, kwargs):
             return I.native(f, *args, **kwargs)
         I.unsupported("no model for %s with symbolic arguments" % f.__qualname__)
